@@ -18,6 +18,7 @@ This module is **private, for internal use by SQLAlchemy**.
 
 from __future__ import annotations
 
+import re
 from typing import Type
 
 from . import exc as orm_exc
@@ -361,19 +362,49 @@ class _EvaluatorCompiler:
             lambda a, b: a + b, eval_left, eval_right, clause
         )
 
+    @staticmethod
+    def _like_fragment_to_regex(fragment, escape):
+        # startswith() / endswith() render "col LIKE <fragment> || '%'":
+        # unless autoescape is used, "%" and "_" inside the fragment are
+        # wildcards, and with autoescape / escape the fragment carries
+        # escape characters.  Translate the fragment the way LIKE reads it.
+        out = []
+        chars = iter(fragment)
+        for char in chars:
+            if escape and char == escape:
+                char = next(chars, escape)
+                out.append(re.escape(char))
+            elif char == "%":
+                out.append(".*")
+            elif char == "_":
+                out.append(".")
+            else:
+                out.append(re.escape(char))
+        return "".join(out)
+
     def visit_startswith_op_binary_op(
         self, operator, eval_left, eval_right, clause
     ):
+        escape = clause.modifiers.get("escape")
+
+        def startswith(a, b):
+            pattern = self._like_fragment_to_regex(b, escape)
+            return re.match(pattern, a, re.S) is not None
+
         return self._straight_evaluate(
-            lambda a, b: a.startswith(b), eval_left, eval_right, clause
+            startswith, eval_left, eval_right, clause
         )
 
     def visit_endswith_op_binary_op(
         self, operator, eval_left, eval_right, clause
     ):
-        return self._straight_evaluate(
-            lambda a, b: a.endswith(b), eval_left, eval_right, clause
-        )
+        escape = clause.modifiers.get("escape")
+
+        def endswith(a, b):
+            pattern = self._like_fragment_to_regex(b, escape)
+            return re.fullmatch(".*" + pattern, a, re.S) is not None
+
+        return self._straight_evaluate(endswith, eval_left, eval_right, clause)
 
     def visit_unary(self, clause):
         eval_inner = self.process(clause.element)
